@@ -55,9 +55,9 @@ def run(pid, tier, seed, replay=None):
         ck.mc(DIR, "FlowAlgs", "MC_ssp3.cfg")
         ck.mc(DIR, "NetSimplex", "MC_ns_quick.cfg")
         if tier == "thorough":
-            ck.mc(DIR, "FlowAlgs", "MC_cert.cfg", timeout=3000)
-            ck.mc(DIR, "NetSimplex", "MC_ns3.cfg", timeout=6000)
-            ck.mc(DIR, "NetSimplex", "NC_ns.cfg", expect_violation="Bounds", timeout=3000)
+            ck.mc(DIR, "FlowAlgs", "MC_cert.cfg", timeout=14400)
+            ck.mc(DIR, "NetSimplex", "MC_ns3.cfg", timeout=14400)
+            ck.mc(DIR, "NetSimplex", "NC_ns.cfg", expect_violation="Bounds", timeout=14400)
         nq = 300 if tier == "quick" else 5000
         c1 = [drv.gen_mincost(rng, nmax=4 if i % 3 == 0 else 8) for i in range(nq)]
         c1 += [drv.gen_mincost_longroute(rng) for _ in range(nq // 2)]
@@ -86,7 +86,7 @@ def run(pid, tier, seed, replay=None):
         if len(st) < len(sc) // 2:
             raise tlc.MachineryError("network-simplex step traces could not be recorded (%d of %d)" % (len(st), len(sc)))
         st += bulk_steps         # the executions the coverage-directed generator kept (rare pivots, long sequences)
-        sv = ck.validate(DIR, "NsTrace", st, "network_simplex pivot sequences (snapshot hooks)", timeout=3000)
+        sv = ck.validate(DIR, "NsTrace", st, "network_simplex pivot sequences (snapshot hooks)", timeout=14400)
         for t, v in zip(st, sv):
             for d in v.get("div", []):
                 ck.divergences["ns_step:" + d] = ck.divergences.get("ns_step:" + d, 0) + 1
@@ -112,7 +112,7 @@ def run(pid, tier, seed, replay=None):
                 fired[exp] = fired.get(exp, 0) + any(d.startswith(exp) for d in v.get("div", []))
             for exp, k in fired.items():
                 ck.control(f"corrupted pivot record flagged by the NetSimplex guard {exp}* ({k} variants)", k > 0, str(fired))
-    vs = ck.validate(DIR, "FlowTrace", trs, "recorded results", timeout=3000)
+    vs = ck.validate(DIR, "FlowTrace", trs, "recorded results", timeout=14400)
     ck.classify(trs, vs, nontrivial=lambda t, v: len(t.get("arcs", [])) >= 2 or len(t.get("matrix", [])) >= 2)
     for t in trs:
         for e in t["events"]:
